@@ -1,0 +1,59 @@
+//go:build verif
+
+// Contracts (machine-checked by /verif/govc) for package compat.
+// This file contains comments only; it is compiled only with the build tag "verif" and adds no code.
+
+package compat
+
+// ---------------------------------------------------------------------------------------------
+// C17: the UTF-8 repairing codec is transparent when the standard codec succeeds and never swallows an
+// error it could not repair.
+// ---------------------------------------------------------------------------------------------
+
+//@ ghost RepairUTF8Codec.lastRepairErr error
+//@ extern pure common.IsInvalidUTF8Error
+//@   ensures err == nil ==> !result
+//@ extern quiet (encoding.CodecV2).Unmarshal
+//@ extern quiet (mem.BufferSlice).Materialize
+//@ extern quiet metrics.SanitizedTypeName
+//@ extern quiet (*prometheus.HistogramVec).WithLabelValues
+//@ extern quiet (prometheus.Observer).Observe
+//@ extern quiet (time.Duration).Seconds
+//@ extern quiet (*prometheus.CounterVec).WithLabelValues
+//@ extern quiet (prometheus.Counter).Inc
+//@ extern convertAndRepairInvalidUTF8@(*RepairUTF8Codec).Unmarshal
+//@   ensures c.lastRepairErr == result
+//@   assigns c.lastRepairErr
+
+// err below is the standard codec's verdict (the local holding the delegate's result).
+//@ contract (*RepairUTF8Codec).Unmarshal
+//@   props C17
+//@   requires c != nil && c.CodecParams != nil
+//@   callpre convertAndRepairInvalidUTF8: @only_on_invalid_utf8: common.IsInvalidUTF8Error(err)
+//@   ensures @transparent: err == nil ==> result == nil
+//@   ensures @other_errors_pass_through: !common.IsInvalidUTF8Error(err) ==> result == err
+//@   ensures @repaired: common.IsInvalidUTF8Error(err) && c.lastRepairErr == nil ==> result == nil
+//@   ensures @unrepairable_reported: common.IsInvalidUTF8Error(err) && c.lastRepairErr != nil ==> result == err && result != nil
+
+//@ extern quiet adminConvertTo122
+//@ extern quiet frontendConvertTo122
+//@ extern quiet (common.Marshaler).Unmarshal
+//@ extern quiet (common.Marshaler).Marshal
+//@ extern quiet RepairInvalidUTF8
+
+// The target message is overwritten only after the legacy decode succeeded, the repair succeeded AND changed
+// something, and the repaired message was re-encoded; every other outcome is an error.
+//@ contract convertAndRepairInvalidUTF8
+//@   props C17
+//@   callpre Unmarshal.2: @after_successful_repair: changed && err == nil && ok && msg122 != nil
+
+// Failure chains: only Message fields are written, the walk is bounded by the depth limit, and an error is
+// reported exactly when the chain is longer than the limit.
+//@ extern pure utf8.ValidString
+//@ extern pure strings.ToValidUTF8
+//@ contract repairInvalidUTF8InFailure
+//@   props C17 C18
+//@   assigns all(failure122.Failure.Message)
+//@   callpre Errorf: @only_when_too_deep: failure != nil && count == maxFailureDepth
+//@   loop 1 invariant 0 <= count && count <= maxFailureDepth
+//@   loop 1 decreases maxFailureDepth - count
